@@ -369,3 +369,169 @@ class C17(Check):
 
 
 CHECKS: dict[str, Check] = {c.id: c for c in [C01(), C02(), C03(), C04(), C05(), C10(), C11(), C17()]}
+
+
+# ---------------------------------------------------------------- C16
+
+def dir_fingerprint(path: str) -> dict:
+    import hashlib
+    out = {}
+    for root, _dirs, files in os.walk(path):
+        for f in files:
+            if f == '.gitignore':
+                continue
+            full = os.path.join(root, f)
+            with open(full, 'rb') as fh:
+                out[os.path.relpath(full, path)] = hashlib.sha1(fh.read()).hexdigest()
+    return out
+
+
+class C16(Check):
+    id = 'C16'
+    quick_runs = 1200
+    rule = ('distinct (specification digest, schedule digest) pairs with >=2 tasks in flight or >=1 fault fired; '
+            'plus the fixed real-OS probe matrix (3 backends x 3 worker counts) run once per batch')
+    expected_probes = ('context-filter-TP', 'ctx-storage-compare', 'process-started')
+
+    def gen(self, ch, tier):
+        sc = gen_scenario(ch, backends=ALL_BACKENDS, cache='sometimes',
+                          types=[('TA', 3), ('TB', 2), ('TC', 2), ('TD', 2), ('TN', 2), ('TP', 5)])
+        return sc
+
+    def oracle(self, sc, out, facts):
+        from .tasklib import ctx_view
+        ref = facts.ref
+        vs = []
+        ctx = O.main_context(sc)
+        backend = sc['backend']
+        for n, ctxs in facts.begin_ctx.items():
+            want = ctx_view(ref.filtered_context(n, ctx))
+            for c in ctxs:
+                if tuple(map(tuple, c)) != want:
+                    vs.append(O.V('C16', 'context', f'node {n} ({ref.tname(n)}) saw context {c}, its filter_context(lab.context) is {want}',
+                                  backend=backend))
+                    break
+        starts = [e for e in out.events if e[0] == 'pstart']
+        if backend in ('serial',):
+            if starts:
+                vs.append(O.V('C16', 'serial-process', 'the serial backend started a process'))
+            for n, who in facts.begin_who.items():
+                if who != ['main']:
+                    vs.append(O.V('C16', 'serial-thread', f'node {n} ran on {who}, not on the caller\'s thread'))
+        elif backend in ('fork', 'spawn'):
+            for e in starts:
+                if e[3] != backend:
+                    vs.append(O.V('C16', 'start-method', f'the {backend} backend started process {e[1]} with start method '
+                                  f'{e[3]} (requested from: {e[2]})', backend=backend, effective=e[3], requested=e[2]))
+                    break
+            per_worker: dict[str, int] = {}
+            for n, whos in facts.begin_who.items():
+                for w in whos:
+                    if w == 'main':
+                        vs.append(O.V('C16', 'ran-in-caller', f'node {n} ran in the calling process under the {backend} backend'))
+                    per_worker[w] = per_worker.get(w, 0) + 1
+            if any(c > 1 for c in per_worker.values()):
+                vs.append(O.V('C16', 'process-reused', f'a task process executed more than one task: {per_worker}'))
+        if out.kind != 'return':
+            what = out.exc['type'] if out.exc else out.abort
+            vs.append(O.V('C16', 'no-return', f'run_tasks did not return: {what} {(out.exc or {}).get("msg", "")[:200]}', exc=what))
+        return vs
+
+    def run(self, ch, workdir, tier):
+        sc = self.gen(ch, tier)
+        cfg = ch.stream('config')
+        do_ctx = cfg.chance(1, 3)
+        d = tempfile.mkdtemp(dir=workdir)
+        extra_probes = {}
+        try:
+            out = execute(sc, ch, d)
+            facts = O.Facts(sc, out)
+            vs = self.oracle(sc, out, facts)
+            if any(sc['nodes'][n]['type'] == 'TP' for n in facts.begins):
+                extra_probes['context-filter-TP'] = 1
+            if any(e[0] == 'pstart' for e in out.events):
+                extra_probes['process-started'] = 1
+            if do_ctx and not vs:
+                draws = ch.recorded()
+                prints = []
+                for ctx in ({'alpha': 'A', 'beta': 2, 'gen': 1}, {'alpha': 'zzzz', 'beta': 99, 'gen': 7, 'extra': 'secret-context'}):
+                    sc2 = self.gen(Choices(replay=draws), tier)
+                    sc2['context'] = ctx
+                    sc2['embed_ctx'] = False
+                    sc2.pop('cached', None)
+                    d2 = tempfile.mkdtemp(dir=workdir)
+                    try:
+                        o2 = execute(sc2, Choices(replay=draws), d2)
+                        prints.append((dir_fingerprint(d2), sorted(o2.keys.values()), o2.kind))
+                    finally:
+                        shutil.rmtree(d2, ignore_errors=True)
+                extra_probes['ctx-storage-compare'] = 1
+                (fa, ka, oa), (fb, kb, ob) = prints
+                if ka != kb:
+                    vs.append(O.V('C16', 'context-in-key', 'cache keys differ between two runs that differ only in the Lab context'))
+                elif fa != fb and oa == ob == 'return':
+                    diff = sorted(set(fa.items()) ^ set(fb.items()))[:4]
+                    vs.append(O.V('C16', 'context-in-storage', f'stored files differ between two runs that differ only in the Lab '
+                                  f'context (task values do not use the context in these runs): {diff}'))
+        finally:
+            shutil.rmtree(d, ignore_errors=True)
+        r = self.record(sc, out, vs, ch)
+        r['probes'].update(extra_probes)
+        return r
+
+    def batch_extra(self, tier):
+        """S3: the real-OS probe.  No schedule dependence at all; declared as a
+        real-execution probe."""
+        import json
+        import subprocess
+        import sys
+        from . import REPO_DIR, VERIF_DIR
+        vs = []
+        samples = []
+        n = 0
+        env = dict(os.environ)
+        env['VERIF_REPO'] = REPO_DIR
+        env['PYTHONPATH'] = VERIF_DIR
+        for backend in ('serial', 'fork', 'spawn'):
+            for mw in (('1', '2', 'none') if tier == 'thorough' else ('2', 'none')):
+                try:
+                    p = subprocess.run([sys.executable, '-m', 'simlab.realprobe', backend, mw], capture_output=True,
+                                       text=True, timeout=120, env=env, cwd=VERIF_DIR)
+                except subprocess.TimeoutExpired:
+                    vs.append(O.V('C16', 'real-probe-timeout', f'real {backend} run with max_workers={mw} did not finish in 120 s', backend=backend))
+                    continue
+                line = [x for x in p.stdout.splitlines() if x.startswith('PROBE ')]
+                if not line:
+                    vs.append(O.V('C16', 'real-probe-failed', f'real {backend} run with max_workers={mw} failed: {p.stderr[-400:]}', backend=backend))
+                    continue
+                n += 1
+                info = json.loads(line[0][6:])
+                samples.append({'real_probe': backend, 'max_workers': mw, 'first_result': info['results'][0]})
+                caller = info['caller_pid']
+                pids = [r['pid'] for r in info['results']]
+                for r in info['results']:
+                    want_ctx = {'keep': 'K', f'only{r["ident"]}': r['ident']}
+                    if r['context'] != want_ctx:
+                        vs.append(O.V('C16', 'real-context', f'{backend}: task {r["ident"]} saw context {r["context"]}, expected {want_ctx}', backend=backend))
+                    if backend == 'serial':
+                        if r['pid'] != caller or not r['main_thread']:
+                            vs.append(O.V('C16', 'real-serial-process', f'serial backend ran task {r["ident"]} in pid {r["pid"]} '
+                                          f'(caller {caller}), main_thread={r["main_thread"]}', backend=backend))
+                    else:
+                        if r['pid'] == caller or r['ppid'] != caller:
+                            vs.append(O.V('C16', 'real-not-child', f'{backend} backend ran task {r["ident"]} in pid {r["pid"]} '
+                                          f'ppid {r["ppid"]} (caller {caller})', backend=backend))
+                        inherits = (r['global'] == 'mutated-by-parent')
+                        if backend == 'fork' and not inherits:
+                            vs.append(O.V('C16', 'real-fork-no-inherit', f'fork backend: task {r["ident"]} does not see the caller\'s memory '
+                                          f'(module global = {r["global"]})', backend=backend))
+                        if backend == 'spawn' and inherits:
+                            vs.append(O.V('C16', 'real-spawn-shares-memory', f'spawn backend: task {r["ident"]} sees a module global the caller '
+                                          f'mutated after import (process class {r["proc_class"]}): it was forked, not freshly started',
+                                          backend=backend, effective='fork'))
+                if backend != 'serial' and len(set(pids)) != len(pids):
+                    vs.append(O.V('C16', 'real-process-reused', f'{backend} backend: tasks shared a process: {pids}', backend=backend))
+        return vs, {'real_probe_runs': n, 'real_probe_samples': samples[:3]}
+
+
+CHECKS['C16'] = C16()
